@@ -207,7 +207,9 @@ def gen_item_C08(rng, idx, tier):
     if mode == 'npix':
         d0 = d1 = 0 if rng.random() < 0.7 else d0
     case['mind'], case['minn'] = d0, n0
-    return {'case': case, 'strict': [d1, n1], 'mode': mode,
+    # a third of the pairs reach the strict parameters in two prunes of the same dendrogram (first an intermediate min_npix)
+    mid = rng.randint(n0, n1) if (n1 > n0 and rng.random() < 0.35) else None
+    return {'case': case, 'strict': [d1, n1], 'mode': mode, 'mid': mid,
             'reload': rng.choice(['hdf5', 'fits']) if rng.random() < 0.25 else None}
 
 
@@ -219,7 +221,10 @@ def eval_C08(item):
     drv = session.driver()
     # A: compute loosely, prune strictly
     # (a quarter of the cases: the dendrogram is saved and loaded back before it is pruned)
-    itemA = {'case': case, 'ops': ([('reload', item['reload'])] if item.get('reload') else []) + [('prune', d1, n1, [], [])]}
+    itemA = {'case': case, 'ops': ([('reload', item['reload'])] if item.get('reload') else []) +
+             ([('prune', 0, item['mid'], [], [])] if item.get('mid') is not None else []) + [('prune', d1, n1, [], [])]}
+    if item.get('mid') is not None:
+        res['tags'].append('two-prunes')
     dA, aA, orderA, hooked, stepsA = session.run_session(case, itemA['ops'])
     # B: compute strictly
     caseB = dict(case)
@@ -634,6 +639,13 @@ def eval_C14(item):
         restore()
         # model = a function of the current forest, i.e. the fresh copy by construction
         res['corr'] += [lab + x for x in session.diff_obs(iobs, mobs, C14_KEYS, ['trunk', 'iter', 'lmap', 'newick'])]
+        # values() against the data at indices(), after value arrays handed out earlier were changed in place by the caller
+        # (impl.observe does that): what a fresh dendrogram reports is the data
+        for sid_, s_ in iobs['structs'].items():
+            if [case['k'][p_] for p_ in s_['indices_own_ordered']] != s_['values_own'] or \
+                    [case['k'][p_] for p_ in s_['indices_sub_ordered']] != s_['values_sub']:
+                res['pred'].append(lab + 'values() of structure %d are not the data at its indices()' % sid_)
+                break
         # independent oracle: a dendrogram rebuilt from links, label map and data
         try:
             f = fresh_copy(d, iobs, case)
